@@ -297,6 +297,19 @@ def fn_programs() -> list:
     # recursion whose recursive call changes the call signature twice (int,int) -> (float,int) -> (float,float)
     add("fn_recursive_signature_shift", {"halve": DEF(["v", "prev"], [IF([(CMP(V("v"), ("<", I(1))), [RETURN(V("prev"))])]), RETURN(CALL("halve", BIN("/", V("v"), I(2)), V("v")))])},
         [WRITE(CALL("halve", I(3), I(0))), ASSIGN("hq", CALL("halve", I(2), I(0))), WRITE(V("hq")), WRITE(CALL("halve", AREAD(), I(0)))], ain=[3])
+    # a helper that re-binds its own parameter to a wider type (the parameter holds what Python holds, in every variant)
+    # (at the top level of the body; a parameter widened inside a branch or loop is the known finding name-retyped)
+    add("fn_param_widened_in_body", {"scale": DEF(["a"], [ASSIGN("a", BIN("/", V("a"), I(2))), RETURN(V("a"))]),
+                                     "grow": DEF(["n", "k"], [ASSIGN("n", BIN("+", V("n"), F(0.5))), ASSIGN("k", BIN("*", V("k"), V("n"))), RETURN(BIN("+", V("n"), V("k")))])},
+        [WRITE(CALL("scale", I(3))), ASSIGN("sv", CALL("scale", I(5))), WRITE(V("sv")), WRITE(CALL("scale", F(1.5))), WRITE(CALL("grow", I(3), I(2))), WRITE(CALL("grow", I(1), F(0.5))),
+         WRITE(CALL("scale", AREAD()))], ain=[7])
+    # a float variable that a loop body re-binds to an int in a statement that does not run (zero iterations, a taken `continue`):
+    # it still holds a fraction after the loop, and so does everything derived from it
+    add("fn_float_survives_unrun_int_rebinding", {"show": DEF(["v"], [RETURN(BIN("*", V("v"), I(2)))]),
+                                                  "level": DEF(["lim"], [ASSIGN("lv", F(0.75)), WHILE(CMP(V("lv"), (">", V("lim"))), [ASSIGN("lv", I(1))]), RETURN(V("lv"))])},
+        [ASSIGN("gain", F(0.25)), WHILE(CMP(V("gain"), (">", I(1))), [ASSIGN("gain", I(1))]), ASSIGN("boost", BIN("*", V("gain"), I(3))), WRITE(V("boost")), WRITE(CALL("show", V("gain"))),
+         ASSIGN("trim", F(1.5)), FOR("ti", I(2), [IF([(CMP(AREAD(), (">", I(0))), [CONTINUE])]), ASSIGN("trim", I(2))]), ASSIGN("half", BIN("-", V("trim"), I(1))), WRITE(V("half")),
+         WRITE(CALL("level", I(5)))], ain=[1, 1])
     # annotated parameters: Python does not enforce annotations - the value the call site passes is the value the parameter holds
     add("fn_annotated_param", {"scale": DEF(["raw", "k"], [RETURN(BIN("*", V("raw"), V("k")))], ann={"raw": "int"}),
                                "lbl": DEF(["t", "n"], [RETURN(FSTR("", V("t"), ":", V("n")))], ann={"t": "str", "n": "float"})},
@@ -766,6 +779,15 @@ def scope_fold_snippets() -> list:
         out.append(snip(f"fold-loop-jump-len-{'continue' if jump is CONTINUE else 'break'}-{'taken' if taken else 'untaken'}",
                         [ASSIGN(tg + "l", S("xy")), FOR(f"jl{n}", I(3), [IF([(CMP(AREAD(), (">", I(0))), [jump])]), ASSIGN(tg + "l", S("long"))]), WRITE(CALL("len", V(tg + "l")))],
                         [taken, taken, taken], "fold:loop-jump"))
+    # name-free arithmetic (foldable at transpile time) with floor division, modulo and powers of negative / inexact operands, at the
+    # sites that bake a number into the firmware
+    arith = [(BIN("*", BIN("//", I(7), I(2)), I(100)), "floordiv-then-mul"), (BIN("*", BIN("//", I(-7), I(2)), I(-100)), "neg-floordiv-then-mul"),
+             (BIN("*", BIN("//", I(9), I(2)), I(2)), "floordiv-count"), (BIN("+", BIN("%", I(-7), I(3)), I(10)), "neg-mod"), (BIN("-", BIN("//", I(7), I(-2)), I(-10)), "floordiv-neg-divisor"),
+             (BIN("*", BIN("%", I(7), I(-3)), I(-5)), "mod-neg-divisor"), (BIN("//", BIN("*", I(7), I(10)), I(4)), "mul-then-floordiv"), (BIN("*", BIN("**", I(2), I(3)), I(3)), "pow-then-mul")]
+    for n, (e, tag) in enumerate(arith):
+        kv = f"ak{n}"
+        out.append(snip(f"fold-literal-arith-{tag}", [SLEEP(e), WRITE(e), FOR(f"ai{n}", e if tag == "floordiv-count" else I(2), [WRITE(V(f"ai{n}"))]), ASSIGN(kv, e),
+                                                      ASSIGN(kv + "t", BIN("*", V(kv), I(2))), WRITE(V(kv + "t")), WRITE(BIN("+", V(kv), I(1)))], [], "fold:literal-arith"))
     # name-free comparison chains (foldable at transpile time): each comparison is with the PREVIOUS operand
     chains = [((0, "<", 10, "<", 5), 100, 500), ((0, "<=", 300, "<=", 255), 200, 10), ((3, ">", 1, ">", 2), 7, 8), ((1, "<", 2, "<", 3), 30, 40),
               ((2, "==", 2, "!=", 2), 5, 6), ((5, ">", 4, ">", 4), 11, 12), ((1, "<", 3, ">", 2), 21, 22), ((1, "<", 2, "<", 3, "<", 2), 31, 32)]
